@@ -933,7 +933,12 @@ def unify_chunks_expr(*args, warn=True):
                 )
                 for n, j in enumerate(i)
             )
-            if chunks != a.chunks and all(a.chunks):
+            # (unknown sizes compare as equal: nan != nan would ask for a
+            # rechunk of an axis whose sizes nobody knows)
+            differs = any(
+                c is not None and not _chunks_match((tuple(c),), (tuple(ac),)) for c, ac in zip(chunks, a.chunks)
+            )
+            if differs and all(a.chunks):
                 # Skip rechunking known chunks to unknown - can't rechunk to nan sizes
                 target_has_nan = any(c is not None and np.isnan(sum(c)) for c in chunks)
                 source_is_known = not any(np.isnan(sum(c)) for c in a.chunks)
